@@ -10,7 +10,7 @@
 EXTENDS Naturals, TLC, Json
 CONSTANTS TYPES, BASES
 VARIABLE p
-WSs == {"none", "sp", "mixed"}
+WSs == {"none", "sp", "mixed", "vt", "ff"}      \* (every member of the C white-space class on its own, too)
 Signs == {"none", "plus", "minus"}
 Prefixes == {"none", "zero", "0x", "0X"}
 DClasses == {"zero", "one", "small", "tmax-1", "tmax", "tmax+1", "tmin", "tmin-1", "u64max", "u64max+1", "i64max+1", "huge",
